@@ -10,6 +10,7 @@ received for `nm` in `q`, in arrival order (`SerfModel.UserCoalesce.newest`).
 -/
 import SerfProofs.Lemmas.UserCoalesce
 import SerfProofs.Lemmas.CoalesceLoop
+import SerfModel.Gen.Coalescers
 namespace SerfProofs.C18
 open SerfModel SerfModel.UserCoalesce SerfProofs.UserCoalesce
 open SerfModel.CoalesceLoop SerfProofs.CoalesceLoop
@@ -309,6 +310,66 @@ theorem C18_after_shutdown_silent (pre post : List (In Ev)) (i : In Ev) :
   have hd : (run userCoalescer (init userCoalescer) (pre ++ .shutdown :: post)).1.done = true := by
     rw [run_done]; simp [isShutdown]
   rw [step_after_done _ _ hd]
+
+/-! ### Ties to serf/coalesce_user.go and serf/coalesce.go (regenerated on every run) -/
+
+section SourceTies
+open SerfModel.CoalesceShapes SerfModel.Gen.Coalescers
+
+/-- **`Coalesce`, interpreted.**  The body of `userEventCoalescer.Coalesce` — its guards translated
+from the source and evaluated, its two actions (a fresh one-element entry stored under the name;
+append to the entry) — computes exactly the model's `coalesce`, on every state and event: no
+entry or strictly newer ⇒ replace the whole slice; equal time ⇒ append; older ⇒ nothing. -/
+theorem C18_coalesce_is_source_program (c : UC) (e : UserEv) :
+    runUserProg userCoalesceProg c e = some (coalesce c e) := by
+  unfold coalesce
+  cases h : alookup c e.name with
+  | none =>
+    simp [userCoalesceProg, runUserProg, Cond.eval, natOps, userEnvB, userEnvV, h]
+  | some v =>
+    obtain ⟨lt, evs⟩ := v
+    by_cases h1 : lt < e.lt
+    · simp [userCoalesceProg, runUserProg, Cond.eval, natOps, userEnvB, userEnvV, h, h1]
+    · by_cases h2 : lt = e.lt
+      · simp [userCoalesceProg, runUserProg, Cond.eval, natOps, userEnvB, userEnvV, h, h2]
+      · have h3 : (lt == e.lt) = false := by simpa using h2
+        simp [userCoalesceProg, runUserProg, Cond.eval, natOps, userEnvB, userEnvV, h, h1, h2, h3]
+
+/-- What precedes the guards: the type assertion and the map lookup by the event's name. -/
+theorem C18_coalesce_prologue :
+    userCoalescePrologue = ["user := e.(UserEvent)", "latest, ok := c.events[user.Name]"] := by decide
+
+/-- `Flush` sends every stored event, name by name, each name's slice front to back, and then
+replaces the map by an empty one (`flush c = ([], c.flatMap (·.2.2))`): nothing — not even a
+Lamport time — survives a flush. -/
+theorem C18_flush_shape :
+    userFlushStmts =
+      ["for _, latest := range c.events", "  for _, e := range latest.Events", "    outChan <- e",
+       "c.events = make(map[string]*latestUserEvents)"] := by decide
+
+/-- `Handle`: user events only, and among them those with the `Coalesce` flag (`handles`). -/
+theorem C18_handle_shape :
+    userHandleStmts =
+      ["if e.EventType() != EventUser { return false }", "user := e.(UserEvent)", "return user.Coalesce"] := by decide
+
+/-- **`coalesceLoop`, case by case** — what `SerfModel.CoalesceLoop.step` mirrors:
+an unhandled event is sent on and the loop continues (before anything else is done with it);
+a handled one arms the quantum timer only if it is not running, re-arms the quiescent timer
+always, and is coalesced; either timer and the shutdown jump to FLUSH (the shutdown setting the
+flag first); INGEST clears both timers; FLUSH calls `Flush` on the output channel and restarts
+unless shutting down. -/
+theorem C18_loop_shape :
+    loopCases =
+      [("e := <-inCh", ["if !c.Handle(e) { outCh <- e continue }",
+                        "if quantum == nil { quantum = time.After(coalescePeriod) }",
+                        "quiescent = time.After(quiescentPeriod)", "c.Coalesce(e)"]),
+       ("<-quantum", ["goto FLUSH"]), ("<-quiescent", ["goto FLUSH"]),
+       ("<-shutdownCh", ["shutdown = true", "goto FLUSH"])] ∧
+    loopIngest = ["quantum = nil", "quiescent = nil", "for { select }"] ∧
+    loopFlush = ["c.Flush(outCh)", "if !shutdown { goto INGEST }"] ∧
+    loopPrologue = ["var quiescent <-chan time.Time", "var quantum <-chan time.Time", "shutdown := false"] := by decide
+
+end SourceTies
 
 /-! ### Non-vacuity -/
 
